@@ -48,7 +48,8 @@ type Block struct {
 	readonly bool
 	epoch    int
 	name     string
-	seq      int // allocation sequence number within owner class
+	seq      int   // allocation sequence number within owner class
+	sizeTerm *Term // symbolic logical size (physical storage grows on demand); nil = concrete
 
 	fn       *ssa.Function
 	bindings []Value
